@@ -17,7 +17,8 @@ Record RingInv (s : st) : Prop := {
   r_hnd : NoDup (map snd (held s));
   r_disj : forall i, in_ring s i -> ~ heldx s (slot_at s i);
   r_rfresh : forall i, in_ring s i -> (slot_at s i < nstreams s)%nat;
-  r_hfresh : forall x, heldx s x -> (x < nstreams s)%nat }.
+  r_hfresh : forall x, heldx s x -> (x < nstreams s)%nat;
+  r_prep : forall x, In x (prep s) -> heldx s x }.   (* a stream inside PutBack is still held by the putting caller *)
 
 (* the part that talks about streams, sessions and their tables *)
 Record TabInv (s : st) : Prop := {
@@ -35,10 +36,10 @@ Proof. unfold pooled, in_ring, slot_at. tauto. Qed.
 (* ---------- frames ---------- *)
 Lemma ring_frame s s' :
   cap s' = cap s -> slots s' = slots s -> head s' = head s -> tail s' = tail s ->
-  held s' = held s -> nstreams s' = nstreams s -> RingInv s -> RingInv s'.
+  held s' = held s -> nstreams s' = nstreams s -> prep s' = prep s -> RingInv s -> RingInv s'.
 Proof.
-  intros Hc Hs Hh Ht Hd Hn [A B C D E F G].
-  constructor; unfold in_ring, slot_at, heldx in *; rewrite ?Hc, ?Hs, ?Hh, ?Ht, ?Hd, ?Hn; auto.
+  intros Hc Hs Hh Ht Hd Hn Hp [A B C D E F G H].
+  constructor; unfold in_ring, slot_at, heldx in *; rewrite ?Hc, ?Hs, ?Hh, ?Ht, ?Hd, ?Hn, ?Hp; auto.
 Qed.
 
 Lemma tab_frame s s' :
@@ -170,13 +171,13 @@ Lemma close_stream_ring s x :
   cap (close_stream x s) = cap s /\ slots (close_stream x s) = slots s /\ head (close_stream x s) = head s /\
   tail (close_stream x s) = tail s /\ held (close_stream x s) = held s /\ nstreams (close_stream x s) = nstreams s /\
   fx (close_stream x s) = fx s /\ cur (close_stream x s) = cur s /\ nsess (close_stream x s) = nsess s /\
-  fy (close_stream x s) = fy s.
+  fy (close_stream x s) = fy s /\ prep (close_stream x s) = prep s.
 Proof. unfold close_stream. destruct (sst (streams s x)); repeat split; reflexivity. Qed.
 
 Lemma base_close_stream s x : Base s -> Base (close_stream x s).
 Proof.
   intros [R T]. split; [| apply tab_close_stream; exact T].
-  destruct (close_stream_ring s x) as (A & B & C & D & E & F & _).
+  destruct (close_stream_ring s x) as (A & B & C & D & E & F & _ & _ & _ & _ & G).
   eapply ring_frame; [.. | exact R]; assumption.
 Qed.
 
@@ -246,7 +247,7 @@ Qed.
 Lemma push_spec x s s2 :
   ring_push x s = Some s2 ->
   tail s - head s < cap s /\
-  s2 = {| fx := fx s; fy := fy s; cap := cap s; slots := updz (slots s) (tail s mod cap s) x; head := head s; tail := tail s + 1;
+  s2 = {| fx := fx s; fy := fy s; prep := prep s; cap := cap s; slots := updz (slots s) (tail s mod cap s) x; head := head s; tail := tail s + 1;
           streams := streams s; nstreams := nstreams s;
           sessions := sessions s; cur := cur s; nsess := nsess s; held := held s |}.
 Proof.
@@ -297,8 +298,9 @@ Qed.
 Lemma ring_add_held c x s :
   RingInv s -> ~ pooled s x -> ~ heldx s x -> (x < nstreams s)%nat -> RingInv (add_held c x s).
 Proof.
-  intros [A B C D E F G] Np Nh Hf.
-  constructor; unfold in_ring, slot_at, heldx, add_held in *; cbn [set_held head tail cap slots held nstreams]; auto.
+  intros [A B C D E F G HP] Np Nh Hf.
+  constructor; unfold in_ring, slot_at, heldx, add_held in *; cbn [set_held head tail cap slots held nstreams prep]; auto.
+  4:{ intros y Hy. rewrite map_app, in_app_iff. left. apply HP. exact Hy. }
   - rewrite map_app. cbn [map snd]. apply NoDup_app_single; assumption.
   - intros i Hi. rewrite map_app, in_app_iff. cbn [map snd In]. intros [H|[H|[]]].
     + apply (E i Hi H).
@@ -328,10 +330,10 @@ Qed.
 
 Lemma ring_rem_held c x s :
   RingInv s -> holds c x s = true ->
-  RingInv (rem_held c x s) /\ ~ heldx (rem_held c x s) x /\
+  (~ In x (prep s) -> RingInv (rem_held c x s)) /\ ~ heldx (rem_held c x s) x /\
   (forall y, heldx s y <-> (y = x \/ heldx (rem_held c x s) y)).
 Proof.
-  intros R Hh. pose proof R as [A B C D E F G]. apply holds_in in Hh.
+  intros R Hh. pose proof R as [A B C D E F G HP]. apply holds_in in Hh.
   assert (Hsub : forall y, heldx (rem_held c x s) y -> heldx s y).
   { unfold heldx, rem_held. cbn [set_held held]. intros y H. apply in_map_iff in H. destruct H as [p [Ep Hp]].
     apply filter_In in Hp. apply in_map_iff. exists p. tauto. }
@@ -340,17 +342,40 @@ Proof.
     cbn [snd] in Ep. subst x'. apply filter_In in Hp. destruct Hp as [Hp Hq].
     assert (c' = c) by (eapply nodup_snd_unique; eauto). subst c'.
     apply negb_true_iff in Hq. assert (pair_eqb (c, x) (c, x) = true) by (apply pair_eqb_true; reflexivity). congruence. }
-  split; [| split; [exact Hnot |]].
-  - constructor; unfold in_ring, slot_at in *; cbn [rem_held set_held head tail cap slots nstreams]; auto.
-    + unfold rem_held. cbn [set_held held]. apply nodup_map_filter. exact D.
-    + intros i Hi H. apply (E i Hi). apply Hsub. exact H.
-  - intro y. split.
+  assert (Hiff : forall y, heldx s y <-> (y = x \/ heldx (rem_held c x s) y)).
+  { intro y. split.
     + intro H. destruct (Nat.eq_dec y x) as [->|N]; [left; reflexivity | right].
       unfold heldx, rem_held in *. cbn [set_held held]. apply in_map_iff in H. destruct H as [[c' y'] [Ep Hp]].
       cbn [snd] in Ep. subst y'. apply in_map_iff. exists (c', y). split; [reflexivity |].
       apply filter_In. split; [exact Hp |]. apply negb_true_iff. destruct (pair_eqb (c, x) (c', y)) eqn:Q; [| reflexivity].
       apply pair_eqb_true in Q. inversion Q. congruence.
-    + intros [->|H]; [| apply Hsub; exact H]. unfold heldx. apply in_map_iff. exists (c, x). auto.
+    + intros [->|H]; [| apply Hsub; exact H]. unfold heldx. apply in_map_iff. exists (c, x). auto. }
+  split; [| split; [exact Hnot | exact Hiff]].
+  intro Np. constructor; unfold in_ring, slot_at in *; cbn [rem_held set_held head tail cap slots nstreams prep]; auto.
+  - unfold rem_held. cbn [set_held held]. apply nodup_map_filter. exact D.
+  - intros i Hi H. apply (E i Hi). apply Hsub. exact H.
+  - intros y Hy. destruct (proj1 (Hiff y) (HP y Hy)) as [->|H]; [contradiction | exact H].
+Qed.
+
+(* the last step of PutBack: the stream leaves the caller's hands and the set of prepared streams together *)
+Definition unprep (x : nat) (s : st) : st := set_prep (filter (fun y => negb (Nat.eqb y x)) (prep s)) s.
+Lemma ring_unprep x s : RingInv s -> RingInv (unprep x s) /\ ~ In x (prep (unprep x s)).
+Proof.
+  intros [A B C D E F G HP]. split.
+  - constructor; unfold in_ring, slot_at, heldx in *; cbn [unprep set_prep head tail cap slots held nstreams prep]; auto.
+    intros y Hy. apply filter_In in Hy. apply HP, Hy.
+  - cbn [unprep set_prep prep]. rewrite filter_In. intros [_ H]. rewrite Nat.eqb_refl in H. discriminate.
+Qed.
+
+Lemma memn_in x l : memn x l = true <-> In x l.
+Proof.
+  unfold memn. rewrite existsb_exists. split.
+  - intros [y [A B]]. apply Nat.eqb_eq in B. subst. exact A.
+  - intro A. exists x. split; [exact A | apply Nat.eqb_refl].
+Qed.
+Lemma owns_holds c x s : owns c x s = true -> holds c x s = true /\ ~ In x (prep s).
+Proof.
+  unfold owns. rewrite andb_true_iff. intros [A B]. split; [exact A |]. intro H. apply memn_in in H. rewrite H in B. discriminate.
 Qed.
 
 Lemma rem_held_fields c x s :
@@ -370,7 +395,7 @@ Proof.
   destruct (unhealthy (sessions s (cur s))) eqn:Hu; [inversion H |].
   inversion H; subst; clear H. split; [| split; reflexivity].
   set (x := nstreams s).
-  set (s1 := {| fx := fx s; fy := fy s; cap := cap s; slots := slots s; head := head s; tail := tail s;
+  set (s1 := {| fx := fx s; fy := fy s; prep := prep s; cap := cap s; slots := slots s; head := head s; tail := tail s;
                 streams := updn (streams s) x (new_stream (cur s)); nstreams := S x;
                 sessions := updn (sessions s) (cur s) (with_table (table (sessions s (cur s)) ++ [x]) (sessions s (cur s)));
                 cur := cur s; nsess := nsess s; held := held s |}).
@@ -433,7 +458,7 @@ Lemma discard_ring s x :
   cap (discard x s) = cap s /\ slots (discard x s) = slots s /\ head (discard x s) = head s /\
   tail (discard x s) = tail s /\ held (discard x s) = held s /\ nstreams (discard x s) = nstreams s /\
   fx (discard x s) = fx s /\ cur (discard x s) = cur s /\ nsess (discard x s) = nsess s /\
-  fy (discard x s) = fy s.
+  fy (discard x s) = fy s /\ prep (discard x s) = prep s.
 Proof. pose proof (close_stream_ring s x) as H. unfold discard. destruct (fx s) eqn:E; [exact H | repeat split; try reflexivity; exact E]. Qed.
 
 Definition got_ok (s : st) (x : nat) : Prop :=
@@ -478,30 +503,56 @@ Proof.
     apply (open_stream_base c s1 s2 x Eo B1).
 Qed.
 
-Lemma do_put_base c x s : Base s -> Base (fst (do_put c x s)).
+Lemma recycled_base v : ssess (recycled_for_reuse v) = ssess v /\ sst (recycled_for_reuse v) = sst v.
 Proof.
-  intros [R T]. unfold do_put. destruct (holds c x s) eqn:Hh; cbn [negb fst]; [| split; assumption].
-  destruct (ring_rem_held c x s R Hh) as (R0 & Nh & Hsub).
+  unfold recycled_for_reuse. destruct (rbuf v) as [|r [|r' l]]; try (split; reflexivity).
+  destruct (r =? 0); split; reflexivity.
+Qed.
+
+Lemma do_put_prepare_base c x s : Base s -> Base (fst (do_put_prepare c x s)).
+Proof.
+  intros [R T]. unfold do_put_prepare. destruct (owns c x s) eqn:Ho; cbn [negb fst]; [| split; assumption].
+  destruct (owns_holds _ _ _ Ho) as [Hh Hnp].
+  destruct (ring_rem_held c x s R Hh) as (R0 & Nh & Hsub). specialize (R0 Hnp).
   assert (T0 : TabInv (rem_held c x s)) by (eapply tab_frame; [.. | exact T]; reflexivity).
-  assert (B0 : Base (rem_held c x s)) by (split; assumption).
-  set (s0 := rem_held c x s) in *.
-  destruct (infb (streams s0 x)); [apply base_close_stream; exact B0 |].
-  destruct (resettable (fy s0) (streams s0 x)) eqn:Hr; cbn [negb]; [| apply base_close_stream; exact B0].
-  set (v := recycled_for_reuse (streams s0 x)).
-  assert (Hv : ssess v = ssess (streams s0 x) /\ sst v = sst (streams s0 x)).
-  { unfold v, recycled_for_reuse. destruct (rbuf (streams s0 x)) as [|r [|r' l]]; try (split; reflexivity).
-    destruct (r =? 0); split; reflexivity. }
-  assert (B1 : Base (set_stream x v s0)).
-  { apply base_set_stream; [apply Hv | destruct Hv as [_ ->]; tauto | exact B0]. }
-  destruct (ring_push x (set_stream x v s0)) as [s2|] eqn:Ep; cbn [fst].
-  - destruct B1 as [R1 T1]. split.
-    + refine (proj1 (ring_push_inv x _ s2 Ep R1 _ _ _)).
-      * rewrite (pooled_frame s (set_stream x v s0)) by reflexivity.
-        apply held_not_pooled; [exact R | eapply holds_heldx; exact Hh].
-      * exact Nh.
-      * cbn [set_stream nstreams]. apply (r_hfresh s R). eapply holds_heldx; exact Hh.
-    + apply push_spec in Ep. destruct Ep as (_ & ->). eapply tab_frame; [.. | exact T1]; reflexivity.
-  - apply base_close_stream. exact B1.
+  destruct (infb (streams s x)); [apply base_close_stream; split; assumption |].
+  destruct (resettable (fy s) (streams s x)); cbn [negb fst]; [| apply base_close_stream; split; assumption].
+  destruct (recycled_base (streams s x)) as [E1 E2].
+  assert (B1 : Base (set_stream x (recycled_for_reuse (streams s x)) s)).
+  { apply base_set_stream; [exact E1 | rewrite E2; tauto | split; assumption]. }
+  destruct B1 as [R1 T1]. split; [| eapply tab_frame; [.. | exact T1]; reflexivity].
+  destruct R1 as [A B C D E F G HP].
+  constructor; unfold in_ring, slot_at, heldx in *; cbn [set_prep set_stream head tail cap slots held nstreams prep] in *; auto.
+  intros y [<-|Hy]; [eapply holds_heldx; exact Hh | apply HP; exact Hy].
+Qed.
+
+Lemma push_prelude c x s :
+  RingInv s -> holds c x s = true ->
+  let s1 := set_prep (filter (fun y => negb (Nat.eqb y x)) (prep s)) (rem_held c x s) in
+  RingInv s1 /\ ~ heldx s1 x /\ ~ pooled s1 x /\ (x < nstreams s1)%nat /\ ~ In x (prep s1) /\
+  (forall y, heldx s y <-> (y = x \/ heldx s1 y)).
+Proof.
+  intros R Hh s1. destruct (ring_unprep x s R) as [Ru Nu].
+  assert (Hh' : holds c x (unprep x s) = true) by exact Hh.
+  destruct (ring_rem_held c x (unprep x s) Ru Hh') as (R0 & Nh & Hsub). specialize (R0 Nu).
+  change (rem_held c x (unprep x s)) with s1 in *.
+  split; [exact R0 | split; [exact Nh | split; [| split; [| split; [exact Nu | exact Hsub]]]]].
+  - assert (P : pooled s1 x <-> pooled s x) by (apply pooled_frame; reflexivity). rewrite P.
+    apply held_not_pooled; [exact R | eapply holds_heldx; exact Hh].
+  - apply (r_hfresh s R). eapply holds_heldx; exact Hh.
+Qed.
+
+Lemma do_put_push_base c x s : Base s -> Base (fst (do_put_push c x s)).
+Proof.
+  intros [R T]. unfold do_put_push. destruct (holds c x s && memn x (prep s)) eqn:Hc; cbn [negb fst]; [| split; assumption].
+  apply andb_true_iff in Hc. destruct Hc as [Hh _].
+  destruct (push_prelude c x s R Hh) as (R1 & Nh & Np & Hf & _ & _).
+  set (s1 := set_prep (filter (fun y => negb (Nat.eqb y x)) (prep s)) (rem_held c x s)) in *.
+  assert (T1 : TabInv s1) by (eapply tab_frame; [.. | exact T]; reflexivity).
+  destruct (ring_push x s1) as [s2|] eqn:Ep; cbn [fst]; [| apply base_close_stream; split; assumption].
+  split.
+  - apply (proj1 (ring_push_inv x s1 s2 Ep R1 Np Nh Hf)).
+  - apply push_spec in Ep. destruct Ep as (_ & ->). eapply tab_frame; [.. | exact T1]; reflexivity.
 Qed.
 
 Lemma do_cleanup_base k s : Base s -> Base (do_cleanup k s).
@@ -550,16 +601,17 @@ Lemma step_base s l : Base s -> Base (fst (step s l)).
 Proof.
   intro B. destruct l; cbn [step].
   - apply do_get_base; exact B.
-  - apply do_put_base; exact B.
-  - destruct (holds c x s && (0 <? n)); cbn [fst]; [| exact B]. unfold do_write. stream_upd.
-  - destruct (holds c x s); cbn [fst]; [| exact B]. unfold do_flush.
+  - apply do_put_prepare_base; exact B.
+  - apply do_put_push_base; exact B.
+  - destruct (owns c x s && (0 <? n)); cbn [fst]; [| exact B]. unfold do_write. stream_upd.
+  - destruct (owns c x s); cbn [fst]; [| exact B]. unfold do_flush.
     destruct (sumz (sbuf (streams s x)) =? 0); [exact B |].
     destruct (is_open (streams s x)) eqn:Ho; cbn [negb]; [| stream_upd].
     destruct (sheap (streams s x) || infb (streams s x)); [apply base_set_session; [reflexivity |] |]; stream_upd.
-  - destruct (holds c x s); cbn [fst]; [| exact B]. unfold do_read. stream_upd.
-  - destruct (holds c x s); cbn [fst]; [| exact B]. unfold do_release.
+  - destruct (owns c x s); cbn [fst]; [| exact B]. unfold do_read. stream_upd.
+  - destruct (owns c x s); cbn [fst]; [| exact B]. unfold do_release.
     destruct (rbuf (streams s x)) as [|r [|r' t]]; try exact B. destruct (r =? 0); [stream_upd | exact B].
-  - destruct (holds c x s); cbn [fst]; [| exact B]. apply base_close_stream; exact B.
+  - destruct (owns c x s); cbn [fst]; [| exact B]. apply base_close_stream; exact B.
   - cbn [fst]. unfold do_peer_data. destruct (x <? nstreams s)%nat; cbn [negb]; [| exact B].
     destruct fb.
     + assert (B1 : Base (set_session (ssess (streams s x)) (with_unhealthy true (sessions s (ssess (streams s x)))) s))
@@ -606,38 +658,53 @@ Definition with_half (v : stream) : stream :=
 Definition with_pend (n : Z) (fb : bool) (v : stream) : stream :=
   {| sst := sst v; ssess := ssess v; rbuf := rbuf v; sbuf := sbuf v; sheap := sheap v; pend := pend v ++ [(n, fb)]; infb := infb v |}.
 
+Definition parked (s : st) (x : nat) : Prop := pooled s x \/ In x (prep s).
+
+Lemma close_stream_parked s x y : parked (close_stream x s) y <-> parked s y.
+Proof.
+  unfold parked. rewrite close_stream_pooled.
+  rewrite (proj2 (proj2 (proj2 (proj2 (proj2 (proj2 (proj2 (proj2 (proj2 (proj2 (close_stream_ring s x))))))))))). tauto.
+Qed.
+
+Lemma owns_not_parked c x s : RingInv s -> owns c x s = true -> ~ parked s x.
+Proof.
+  intros R Ho [H|H]; destruct (owns_holds _ _ _ Ho) as [Hh Hnp]; [| contradiction].
+  apply (held_not_pooled s x R); [eapply holds_heldx; exact Hh | exact H].
+Qed.
+
 Section PoolProp.
   Variable P : stream -> Prop.
   Hypothesis P_closed : forall v, P v -> P (closed_of v).
 
-  Definition PoolP (s : st) : Prop := forall x, pooled s x -> P (streams s x).
+  Definition PoolP (s : st) : Prop := forall x, parked s x -> P (streams s x).
 
-  (* what the environment / the callers must respect for P to stay true of the pooled streams *)
+  (* what the environment / the callers must respect for P to stay true of the parked streams
+     (parked = in the ring, or prepared by a PutBack that has not pushed yet) *)
   Definition guardP (s : st) (l : label) : Prop :=
     match l with
-    | Put c x => holds c x s = true -> resettable (fy s) (streams s x) = true -> infb (streams s x) = false ->
-                 P (recycled_for_reuse (streams s x))
-    | PeerData x n fb => pooled s x -> P (streams s x) -> P (with_pend n fb (streams s x))
-    | PeerClose x => pooled s x -> P (streams s x) -> sst (streams s x) = Opened -> P (with_half (streams s x))
+    | PutPrepare c x => owns c x s = true -> resettable (fy s) (streams s x) = true -> infb (streams s x) = false ->
+                        P (recycled_for_reuse (streams s x))
+    | PeerData x n fb => parked s x -> P (streams s x) -> P (with_pend n fb (streams s x))
+    | PeerClose x => parked s x -> P (streams s x) -> sst (streams s x) = Opened -> P (with_half (streams s x))
     | _ => True
     end.
 
   Lemma poolP_close_stream s x : PoolP s -> PoolP (close_stream x s).
   Proof.
-    intros H y Hy. apply (proj1 (close_stream_pooled s x y)) in Hy. destruct (Nat.eq_dec y x) as [->|N].
+    intros H y Hy. apply (proj1 (close_stream_parked s x y)) in Hy. destruct (Nat.eq_dec y x) as [->|N].
     - destruct (close_stream_self s x) as [E|E]; rewrite E; [apply P_closed |]; apply H; exact Hy.
     - rewrite close_stream_other by exact N. apply H; exact Hy.
   Qed.
 
-  Lemma poolP_set_stream_np s x v : ~ pooled s x -> PoolP s -> PoolP (set_stream x v s).
+  Lemma poolP_set_stream_np s x v : ~ parked s x -> PoolP s -> PoolP (set_stream x v s).
   Proof.
-    intros Np H y Hy. assert (Hy' : pooled s y) by exact Hy.
+    intros Np H y Hy. assert (Hy' : parked s y) by exact Hy.
     cbn [set_stream streams]. rewrite updn_neq; [apply H; exact Hy' | intro; subst; tauto].
   Qed.
 
   Lemma poolP_set_stream_p s x v : P v -> PoolP s -> PoolP (set_stream x v s).
   Proof.
-    intros Pv H y Hy. assert (Hy' : pooled s y) by exact Hy.
+    intros Pv H y Hy. assert (Hy' : parked s y) by exact Hy.
     cbn [set_stream streams]. destruct (Nat.eq_dec y x) as [->|N]; [rewrite updn_eq; exact Pv | rewrite updn_neq by exact N; apply H; exact Hy'].
   Qed.
 
@@ -651,8 +718,8 @@ Section PoolProp.
   Proof.
     intros Hp R H. destruct (ring_pop_inv s x s1 Hp R) as (_ & Px & _ & _ & _ & Hiff).
     apply pop_spec in Hp. destruct Hp as (_ & _ & ->). split.
-    - intros y Hy. apply (H y). apply Hiff. right. exact Hy.
-    - apply (H x Px).
+    - intros y [Hy|Hy]; apply (H y); [left; apply Hiff; right; exact Hy | right; exact Hy].
+    - apply (H x). left. exact Px.
   Qed.
 
   Lemma get_loop_poolP fuel s s1 r :
@@ -681,56 +748,63 @@ Section PoolProp.
         pose proof (get_loop_base _ _ _ _ B E) as B1. cbn in B1.
         unfold open_stream. destruct (shut (sessions s1 (cur s1))); [exact H1 |].
         destruct (unhealthy (sessions s1 (cur s1))); [exact H1 |]. cbn [fst].
-        intros y Hy. assert (Hy' : pooled s1 y) by exact Hy.
+        intros y Hy. assert (Hy' : parked s1 y) by exact Hy.
         cbn [add_held set_held streams]. rewrite updn_neq; [apply H1; exact Hy' |].
-        destruct Hy' as [i [Hi Ei]]. destruct B1 as [R1 _]. pose proof (r_rfresh s1 R1 i Hi) as F. unfold slot_at in F. rewrite Ei in F. lia.
-    - (* Put *)
-      unfold do_put. destruct (holds c x s) eqn:Hh; cbn [negb fst]; [| exact H].
-      destruct (ring_rem_held c x s R Hh) as (R0 & Nh & Hsub).
+        destruct B1 as [R1 _]. destruct Hy' as [[i [Hi Ei]]|Hp].
+        * pose proof (r_rfresh s1 R1 i Hi) as F. unfold slot_at in F. rewrite Ei in F. lia.
+        * pose proof (r_hfresh s1 R1 y (r_prep s1 R1 y Hp)). lia.
+    - (* PutPrepare *)
+      unfold do_put_prepare. destruct (owns c x s) eqn:Ho; cbn [negb fst]; [| exact H].
       assert (H0 : PoolP (rem_held c x s)) by (intros y Hy; apply (H y Hy)).
-      assert (Np : ~ pooled (rem_held c x s) x).
-      { rewrite (pooled_frame s (rem_held c x s)) by reflexivity. apply held_not_pooled; [exact R | eapply holds_heldx; exact Hh]. }
-      set (s0 := rem_held c x s) in *.
-      destruct (infb (streams s0 x)) eqn:Hf; [apply poolP_close_stream; exact H0 |].
-      destruct (resettable (fy s0) (streams s0 x)) eqn:Hr; cbn [negb]; [| apply poolP_close_stream; exact H0].
-      set (v := recycled_for_reuse (streams s0 x)).
-      assert (Pv : P v) by (apply Hg; assumption).
-      assert (H1 : PoolP (set_stream x v s0)) by (apply poolP_set_stream_p; assumption).
-      destruct (ring_push x (set_stream x v s0)) as [s2|] eqn:Ep; cbn [fst]; [| apply poolP_close_stream; exact H1].
-      assert (R1 : RingInv (set_stream x v s0)) by (eapply ring_frame; [.. | exact R0]; reflexivity).
-      destruct (ring_push_inv x _ s2 Ep R1) as (_ & Hiff); [exact Np | exact Nh | apply (r_hfresh s R); eapply holds_heldx; exact Hh |].
-      intros y Hy. apply Hiff in Hy. apply push_spec in Ep. destruct Ep as (_ & ->). cbn [streams set_stream].
-      destruct Hy as [->|Hy]; [rewrite updn_eq; exact Pv |]. apply (H1 y Hy).
-    - destruct (holds c x s && (0 <? n)) eqn:Hh; cbn [fst]; [| exact H]. apply andb_true_iff in Hh. destruct Hh as [Hh _].
-      apply poolP_set_stream_np; [apply held_not_pooled; [exact R | eapply holds_heldx; exact Hh] | exact H].
-    - destruct (holds c x s) eqn:Hh; cbn [fst]; [| exact H].
-      assert (Np : ~ pooled s x) by (apply held_not_pooled; [exact R | eapply holds_heldx; exact Hh]).
+      destruct (infb (streams s x)) eqn:Hf; [apply poolP_close_stream; exact H0 |].
+      destruct (resettable (fy s) (streams s x)) eqn:Hr; cbn [negb fst]; [| apply poolP_close_stream; exact H0].
+      assert (Pv : P (recycled_for_reuse (streams s x))) by (apply Hg; assumption).
+      intros y Hy. cbn [set_prep set_stream streams]. destruct (Nat.eq_dec y x) as [->|N]; [rewrite updn_eq; exact Pv |].
+      rewrite updn_neq by exact N. apply H. destruct Hy as [Hy|Hy]; [left; exact Hy | right].
+      cbn [set_prep prep In] in Hy. destruct Hy as [Hy|Hy]; [congruence | exact Hy].
+    - (* PutPush *)
+      unfold do_put_push. destruct (holds c x s && memn x (prep s)) eqn:Hc; cbn [negb fst]; [| exact H].
+      apply andb_true_iff in Hc. destruct Hc as [Hh Hm]. apply memn_in in Hm.
+      destruct (push_prelude c x s R Hh) as (R1 & Nh & Np & Hf & _ & _).
+      set (s1 := set_prep (filter (fun y => negb (Nat.eqb y x)) (prep s)) (rem_held c x s)) in *.
+      assert (Px : P (streams s x)) by (apply H; right; exact Hm).
+      assert (H1 : forall y, parked s1 y -> P (streams s1 y)).
+      { intros y [Hy|Hy]; apply (H y); [left; exact Hy | right]. cbn [s1 set_prep prep] in Hy. apply filter_In in Hy. apply Hy. }
+      destruct (ring_push x s1) as [s2|] eqn:Ep; cbn [fst]; [| apply poolP_close_stream; exact H1].
+      destruct (ring_push_inv x s1 s2 Ep R1 Np Nh Hf) as (_ & Hiff).
+      apply push_spec in Ep. destruct Ep as (_ & ->). intros y [Hy|Hy]; cbn [streams].
+      + apply Hiff in Hy. destruct Hy as [->|Hy]; [exact Px | apply H1; left; exact Hy].
+      + apply H1. right. exact Hy.
+    - destruct (owns c x s && (0 <? n)) eqn:Hh; cbn [fst]; [| exact H]. apply andb_true_iff in Hh. destruct Hh as [Hh _].
+      apply poolP_set_stream_np; [apply (owns_not_parked c); assumption | exact H].
+    - destruct (owns c x s) eqn:Hh; cbn [fst]; [| exact H].
+      assert (Np : ~ parked s x) by (apply (owns_not_parked c); assumption).
       unfold do_flush. destruct (sumz (sbuf (streams s x)) =? 0); [exact H |].
       destruct (is_open (streams s x)); cbn [negb]; [| apply poolP_set_stream_np; assumption].
       destruct (sheap (streams s x) || infb (streams s x)); [apply poolP_set_session |]; apply poolP_set_stream_np; assumption.
-    - destruct (holds c x s) eqn:Hh; cbn [fst]; [| exact H].
-      apply poolP_set_stream_np; [apply held_not_pooled; [exact R | eapply holds_heldx; exact Hh] | exact H].
-    - destruct (holds c x s) eqn:Hh; cbn [fst]; [| exact H].
-      assert (Np : ~ pooled s x) by (apply held_not_pooled; [exact R | eapply holds_heldx; exact Hh]).
+    - destruct (owns c x s) eqn:Hh; cbn [fst]; [| exact H].
+      apply poolP_set_stream_np; [apply (owns_not_parked c); assumption | exact H].
+    - destruct (owns c x s) eqn:Hh; cbn [fst]; [| exact H].
+      assert (Np : ~ parked s x) by (apply (owns_not_parked c); assumption).
       unfold do_release. destruct (rbuf (streams s x)) as [|r [|r' t]]; try exact H.
       destruct (r =? 0); [apply poolP_set_stream_np; assumption | exact H].
-    - destruct (holds c x s) eqn:Hh; cbn [fst]; [| exact H]. apply poolP_close_stream; exact H.
+    - destruct (owns c x s) eqn:Hh; cbn [fst]; [| exact H]. apply poolP_close_stream; exact H.
     - (* PeerData *)
       cbn [fst]. unfold do_peer_data. destruct (x <? nstreams s)%nat; cbn [negb]; [| exact H].
       assert (Hx : PoolP (set_stream x (with_pend n fb (streams s x)) s)).
-      { intros y Hy. assert (Hy' : pooled s y) by exact Hy. cbn [set_stream streams].
+      { intros y Hy. assert (Hy' : parked s y) by exact Hy. cbn [set_stream streams].
         destruct (Nat.eq_dec y x) as [->|N]; [rewrite updn_eq; apply Hg; [exact Hy' | apply H; exact Hy'] | rewrite updn_neq by exact N; apply H; exact Hy']. }
       destruct fb; destruct (in_table x s); try exact H; try exact Hx; intros y Hy; first [apply (Hx y Hy) | apply (H y Hy)].
     - (* PeerClose *)
       cbn [fst]. unfold do_peer_close. destruct ((x <? nstreams s)%nat && is_open (streams s x)) eqn:E; [| exact H].
       apply andb_true_iff in E. destruct E as [_ E]. apply is_open_true in E.
-      intros y Hy. assert (Hy' : pooled s y) by exact Hy. cbn [set_stream streams].
+      intros y Hy. assert (Hy' : parked s y) by exact Hy. cbn [set_stream streams].
       destruct (Nat.eq_dec y x) as [->|N]; [rewrite updn_eq; apply Hg; [exact Hy' | apply H; exact Hy' | exact E] | rewrite updn_neq by exact N; apply H; exact Hy'].
     - cbn [fst]. apply poolP_set_session; exact H.
     - cbn [fst]. apply poolP_set_session; exact H.
     - (* SessCleanup *)
       cbn [fst]. unfold do_cleanup. destruct (shut (sessions s k) && negb (cleaned (sessions s k))); [| exact H].
-      intros y Hy. assert (Hy' : pooled s y) by exact Hy. cbn [streams].
+      intros y Hy. assert (Hy' : parked s y) by exact Hy. cbn [streams].
       destruct (existsb (Nat.eqb y) (table (sessions s k))); [apply P_closed |]; apply H; exact Hy'.
     - (* BgPop *)
       cbn [fst]. unfold do_bg_pop. destruct (shut (sessions s (cur s))); [| exact H].
@@ -753,7 +827,7 @@ Proof.
 Qed.
 
 Lemma init_poolP P f g c : PoolP P (init f g c).
-Proof. intros x [i [Hi _]]. cbn [init head tail] in Hi. lia. Qed.
+Proof. intros x [[i [Hi _]]|[]]. cbn [init head tail] in Hi. lia. Qed.
 
 (* ---------- cleanliness ---------- *)
 (* "carries no bytes of an earlier use", part 1: the buffers *)
@@ -767,13 +841,13 @@ Definition clean_stream (v : stream) : Prop :=
    a caller gives a stream back only with an empty send buffer *)
 Definition bytes_guard (s : st) (l : label) : Prop :=
   match l with
-  | Put c x => fy s = true \/ (holds c x s = true -> sumz (sbuf (streams s x)) = 0)
+  | PutPrepare c x => fy s = true \/ (owns c x s = true -> sumz (sbuf (streams s x)) = 0)
   | _ => True
   end.
-(* what part 2 needs from the peer: it sends nothing to a stream while it is pooled *)
+(* what part 2 needs from the peer: it sends nothing to a stream while it is pooled (or on its way into the pool) *)
 Definition pend_guard (s : st) (l : label) : Prop :=
   match l with
-  | PeerData x _ _ => ~ pooled s x
+  | PeerData x _ _ => ~ parked s x
   | _ => True
   end.
 
@@ -851,7 +925,7 @@ Definition Owned (s : st) : Prop :=
 (* the hypothesis under which today's code does not leak: the peer closes no stream while it is
    pooled - or the repair is in (fx = true) and the hypothesis is void *)
 Definition leak_guard (s : st) (l : label) : Prop :=
-  fx s = true \/ match l with PeerClose x => ~ pooled s x | _ => True end.
+  fx s = true \/ match l with PeerClose x => ~ parked s x | _ => True end.
 
 Definition LeakInv (s : st) : Prop := Owned s /\ (fx s = false -> PoolP no_half s).
 
@@ -884,17 +958,18 @@ Proof.
   - unfold do_get. destruct (unhealthy _); [reflexivity |].
     destruct (get_loop _ s) as [s1 [x|]] eqn:E; apply get_loop_fx in E; cbn [fst]; [exact E |].
     unfold open_stream. destruct (shut _); [exact E |]. destruct (unhealthy _); exact E.
-  - unfold do_put. destruct (holds c x s); cbn [negb fst]; [| reflexivity].
+  - unfold do_put_prepare. destruct (owns c x s); cbn [negb fst]; [| reflexivity].
     destruct (infb _); [cbn [fst]; rewrite close_stream_fx; reflexivity |].
-    destruct (resettable _ _); cbn [negb]; [| cbn [fst]; rewrite close_stream_fx; reflexivity].
+    destruct (resettable _ _); cbn [negb fst]; [reflexivity | rewrite close_stream_fx; reflexivity].
+  - unfold do_put_push. destruct (_ && _); cbn [negb fst]; [| reflexivity].
     destruct (ring_push _ _) as [s2|] eqn:Ep; cbn [fst]; [apply push_spec in Ep; destruct Ep as (_ & ->); reflexivity | rewrite close_stream_fx; reflexivity].
   - destruct (_ && _); reflexivity.
-  - destruct (holds c x s); cbn [fst]; [| reflexivity]. unfold do_flush.
+  - destruct (owns c x s); cbn [fst]; [| reflexivity]. unfold do_flush.
     destruct (_ =? 0); [reflexivity |]. destruct (is_open _); cbn [negb]; [| reflexivity]. destruct (_ || _); reflexivity.
-  - destruct (holds c x s); reflexivity.
-  - destruct (holds c x s); cbn [fst]; [| reflexivity]. unfold do_release.
+  - destruct (owns c x s); reflexivity.
+  - destruct (owns c x s); cbn [fst]; [| reflexivity]. unfold do_release.
     destruct (rbuf _) as [|r [|r' t]]; try reflexivity. destruct (r =? 0); reflexivity.
-  - destruct (holds c x s); cbn [fst]; [apply close_stream_fx | reflexivity].
+  - destruct (owns c x s); cbn [fst]; [apply close_stream_fx | reflexivity].
   - cbn [fst]. unfold do_peer_data. destruct (_ <? _)%nat; cbn [negb]; [| reflexivity]. destruct fb; destruct (in_table x s); reflexivity.
   - cbn [fst]. unfold do_peer_close. destruct (_ && _); reflexivity.
   - reflexivity.
@@ -915,7 +990,7 @@ Proof.
   destruct (ring_pop s) as [[x s0]|] eqn:Ep; [| inversion H; reflexivity].
   apply pop_spec in Ep. destruct Ep as (_ & _ & ->).
   destruct (negb _ && _); [inversion H; reflexivity |].
-  apply IH in H. rewrite H. destruct (discard_ring (set_head (head s + 1) s) x) as (_ & _ & _ & _ & _ & _ & _ & _ & _ & E). exact E.
+  apply IH in H. rewrite H. destruct (discard_ring (set_head (head s + 1) s) x) as (_ & _ & _ & _ & _ & _ & _ & _ & _ & E & _). exact E.
 Qed.
 
 Lemma close_stream_fy s x : fy (close_stream x s) = fy s.
@@ -927,17 +1002,18 @@ Proof.
   - unfold do_get. destruct (unhealthy _); [reflexivity |].
     destruct (get_loop _ s) as [s1 [x|]] eqn:E; apply get_loop_fy in E; cbn [fst]; [exact E |].
     unfold open_stream. destruct (shut _); [exact E |]. destruct (unhealthy _); exact E.
-  - unfold do_put. destruct (holds c x s); cbn [negb fst]; [| reflexivity].
+  - unfold do_put_prepare. destruct (owns c x s); cbn [negb fst]; [| reflexivity].
     destruct (infb _); [cbn [fst]; rewrite close_stream_fy; reflexivity |].
-    destruct (resettable _ _); cbn [negb]; [| cbn [fst]; rewrite close_stream_fy; reflexivity].
+    destruct (resettable _ _); cbn [negb fst]; [reflexivity | rewrite close_stream_fy; reflexivity].
+  - unfold do_put_push. destruct (_ && _); cbn [negb fst]; [| reflexivity].
     destruct (ring_push _ _) as [s2|] eqn:Ep; cbn [fst]; [apply push_spec in Ep; destruct Ep as (_ & ->); reflexivity | rewrite close_stream_fy; reflexivity].
   - destruct (_ && _); reflexivity.
-  - destruct (holds c x s); cbn [fst]; [| reflexivity]. unfold do_flush.
+  - destruct (owns c x s); cbn [fst]; [| reflexivity]. unfold do_flush.
     destruct (_ =? 0); [reflexivity |]. destruct (is_open _); cbn [negb]; [| reflexivity]. destruct (_ || _); reflexivity.
-  - destruct (holds c x s); reflexivity.
-  - destruct (holds c x s); cbn [fst]; [| reflexivity]. unfold do_release.
+  - destruct (owns c x s); reflexivity.
+  - destruct (owns c x s); cbn [fst]; [| reflexivity]. unfold do_release.
     destruct (rbuf _) as [|r [|r' t]]; try reflexivity. destruct (r =? 0); reflexivity.
-  - destruct (holds c x s); cbn [fst]; [apply close_stream_fy | reflexivity].
+  - destruct (owns c x s); cbn [fst]; [apply close_stream_fy | reflexivity].
   - cbn [fst]. unfold do_peer_data. destruct (_ <? _)%nat; cbn [negb]; [| reflexivity]. destruct fb; destruct (in_table x s); reflexivity.
   - cbn [fst]. unfold do_peer_close. destruct (_ && _); reflexivity.
   - reflexivity.
@@ -1026,10 +1102,10 @@ Proof.
     assert (Hx : sst (streams s1 x) = HalfClosed).
     { unfold is_open in Hc. destruct (sst (streams s1 x)); cbn in Hc; congruence. }
     assert (F' : fx s = false) by congruence.
-    apply (NH F' x Px). subst s1. exact Hx.
+    apply (NH F' x (or_introl Px)). subst s1. exact Hx.
   - destruct (discard_ring s1 x) as (_ & _ & _ & _ & _ & _ & Fd & _). rewrite Fd, Hfx. intro F.
     apply poolP_discard; [apply no_half_closed |].
-    intros y Hy. assert (Hy' : pooled s y) by (apply Hiff; right; exact Hy). subst s1. apply (NH F y Hy').
+    intros y Hy. assert (Hy' : parked s y) by (destruct Hy as [Hy|Hy]; [left; apply Hiff; right; exact Hy | right; subst s1; exact Hy]). subst s1. apply (NH F y Hy').
 Qed.
 
 Lemma step_owned s l : Base s -> LeakInv s -> Owned (fst (step s l)).
@@ -1053,41 +1129,43 @@ Proof.
         -- destruct (O1 _ y Hs Hi) as [H|H]; [left; exact H | right; left; exact H].
         -- right. right. left. exact Hi.
       * rewrite updn_neq in Hs, Hi by exact Nk. destruct (O1 _ y Hs Hi) as [H|H]; [left; exact H | right; left; exact H].
-  - (* Put *)
-    unfold do_put. destruct (holds c x s) eqn:Hh; cbn [negb fst]; [| exact O].
-    destruct (ring_rem_held c x s R Hh) as (R0 & Nh & Hsub).
+  - (* PutPrepare *)
+    unfold do_put_prepare. destruct (owns c x s) eqn:Ho; cbn [negb fst]; [| exact O].
+    destruct (owns_holds _ _ _ Ho) as [Hh Hnp].
+    destruct (ring_rem_held c x s R Hh) as (_ & Nh & Hsub).
     assert (T0 : TabInv (rem_held c x s)) by (eapply tab_frame; [.. | exact T]; reflexivity).
     assert (OB : OwnedBut x (rem_held c x s)).
     { intros k y Hs Hi. destruct (O k y Hs Hi) as [H|H]; [left; exact H |]. apply Hsub in H. destruct H as [->|H]; auto. }
-    set (s0 := rem_held c x s) in *.
-    destruct (infb (streams s0 x)); [apply ownedbut_close; assumption |].
-    destruct (resettable (fy s0) (streams s0 x)) eqn:Hr; cbn [negb]; [| apply ownedbut_close; assumption].
-    set (v := recycled_for_reuse (streams s0 x)).
-    assert (B1 : Base (set_stream x v s0)).
-    { apply base_set_stream; [apply recycled_sst | unfold v; destruct (recycled_sst (streams s0 x)) as [-> _]; tauto | split; assumption]. }
-    assert (OB1 : OwnedBut x (set_stream x v s0)) by exact OB.
-    destruct (ring_push x (set_stream x v s0)) as [s2|] eqn:Ep; cbn [fst]; [| apply ownedbut_close; [apply B1 | exact OB1]].
-    destruct (ring_push_inv x _ s2 Ep (proj1 B1)) as (_ & Hiff).
-    { rewrite (pooled_frame s (set_stream x v s0)) by reflexivity. apply held_not_pooled; [exact R | eapply holds_heldx; exact Hh]. }
-    { exact Nh. }
-    { apply (r_hfresh s R). eapply holds_heldx; exact Hh. }
+    destruct (infb (streams s x)); [apply ownedbut_close; assumption |].
+    destruct (resettable (fy s) (streams s x)); cbn [negb fst]; [| apply ownedbut_close; assumption].
+    exact O.
+  - (* PutPush *)
+    unfold do_put_push. destruct (holds c x s && memn x (prep s)) eqn:Hc; cbn [negb fst]; [| exact O].
+    apply andb_true_iff in Hc. destruct Hc as [Hh _].
+    destruct (push_prelude c x s R Hh) as (R1 & Nh & Np & Hf & _ & Hsub).
+    set (s1 := set_prep (filter (fun y => negb (Nat.eqb y x)) (prep s)) (rem_held c x s)) in *.
+    assert (T1 : TabInv s1) by (eapply tab_frame; [.. | exact T]; reflexivity).
+    assert (OB1 : OwnedBut x s1).
+    { intros k y Hs Hi. destruct (O k y Hs Hi) as [H|H]; [left; exact H |]. apply Hsub in H. destruct H as [->|H]; auto. }
+    destruct (ring_push x s1) as [s2|] eqn:Ep; cbn [fst]; [| apply ownedbut_close; assumption].
+    destruct (ring_push_inv x s1 s2 Ep R1 Np Nh Hf) as (_ & Hiff).
     intros k y Hs Hi. apply push_spec in Ep. destruct Ep as (_ & E2).
-    assert (Hs' : shut (sessions (set_stream x v s0) k) = false) by (subst s2; exact Hs).
-    assert (Hi' : In y (table (sessions (set_stream x v s0) k))) by (subst s2; exact Hi).
+    assert (Hs' : shut (sessions s1 k) = false) by (subst s2; exact Hs).
+    assert (Hi' : In y (table (sessions s1 k))) by (subst s2; exact Hi).
     destruct (OB1 k y Hs' Hi') as [H|[H|H]].
     + left. apply Hiff. right. exact H.
     + right. subst s2. exact H.
     + left. apply Hiff. left. exact H.
   - destruct (_ && _); cbn [fst]; exact O.
-  - destruct (holds c x s); cbn [fst]; [| exact O]. unfold do_flush.
+  - destruct (owns c x s); cbn [fst]; [| exact O]. unfold do_flush.
     destruct (_ =? 0); [exact O |]. destruct (is_open _); cbn [negb]; [| exact O].
     destruct (_ || _); [| exact O].
     intros k y Hs Hi. cbn [set_session set_stream sessions] in Hs, Hi.
     destruct (Nat.eq_dec k (ssess (streams s x))) as [->|Nk]; [rewrite updn_eq in Hs, Hi | rewrite updn_neq in Hs, Hi by exact Nk]; apply (O _ y Hs Hi).
-  - destruct (holds c x s); cbn [fst]; exact O.
-  - destruct (holds c x s); cbn [fst]; [| exact O]. unfold do_release.
+  - destruct (owns c x s); cbn [fst]; exact O.
+  - destruct (owns c x s); cbn [fst]; [| exact O]. unfold do_release.
     destruct (rbuf _) as [|r [|r' t]]; try exact O. destruct (r =? 0); exact O.
-  - destruct (holds c x s); cbn [fst]; [apply owned_close_stream |]; exact O.
+  - destruct (owns c x s); cbn [fst]; [apply owned_close_stream |]; exact O.
   - cbn [fst]. unfold do_peer_data. destruct (_ <? _)%nat; cbn [negb]; [| exact O].
     assert (O1 : Owned (set_session (ssess (streams s x)) (with_unhealthy true (sessions s (ssess (streams s x)))) s)).
     { intros k y Hs Hi. cbn [set_session sessions] in Hs, Hi.
@@ -1160,6 +1238,16 @@ Qed.
 
 Theorem ring_thm f g c h : 0 <= c -> ring_ok (run (init f g c) h).
 Proof. intro Hc. apply base_ring_ok, run_base, init_base, Hc. Qed.
+
+(* a stream inside PutBack (prepared, not pushed yet) is still in the hands of the putting caller, of nobody
+   else, and not in the ring *)
+Theorem put_exclusive_thm f g c h x :
+  0 <= c -> let s := run (init f g c) h in
+  prepared s x -> (exists cl, holder s cl x) /\ ~ pooled s x.
+Proof.
+  intros Hc s Hp. destruct (run_base (init f g c) h (init_base f g c Hc)) as [R _]. fold s in R.
+  pose proof (r_prep s R x Hp) as Hh. split; [apply heldx_holder; exact Hh | apply held_not_pooled; assumption].
+Qed.
 
 Definition table_ok (s : st) : Prop :=
   forall k, NoDup (table (sessions s k)) /\
@@ -1267,11 +1355,11 @@ Proof. intro Hc. apply partial_no_leak_thm; [exact Hc | apply guarded_fx; reflex
 (* previous holder: request, response read completely, 5 more bytes written but never flushed, PutBack;
    next holder: Get *)
 Definition witness_unflushed : list label :=
-  [Get 0; Write 0 0 8 false; Flush 0 0; PeerData 0 16 false; Read 0 0 16; Write 0 0 5 false; Put 0 0]%nat.
+  [Get 0; Write 0 0 8 false; Flush 0 0; PeerData 0 16 false; Read 0 0 16; Write 0 0 5 false; PutPrepare 0 0; PutPush 0 0]%nat.
 (* a response that arrives after PutBack is handed to the next holder *)
-Definition witness_late : list label := [Get 0; Write 0 0 8 false; Flush 0 0; Put 0 0; PeerData 0 16 false]%nat.
+Definition witness_late : list label := [Get 0; Write 0 0 8 false; Flush 0 0; PutPrepare 0 0; PutPush 0 0; PeerData 0 16 false]%nat.
 (* the peer closes a pooled stream *)
-Definition witness_leak : list label := [Get 0; Put 0 0; PeerClose 0; Get 0]%nat.
+Definition witness_leak : list label := [Get 0; PutPrepare 0 0; PutPush 0 0; PeerClose 0; Get 0]%nat.
 
 (* the FULL cleanliness statement (all clauses, no hypothesis) is false of EVERY variant of the model,
    the current code included: late data *)
